@@ -10,6 +10,9 @@
 //! candidate children and the strictness are symbolic inside a harness.
 use crate::common::*;
 use ast_grep_core::matcher::{Matcher, MatcherExt, Pattern, PatternNode};
+use ast_grep_core::meta_var::MetaVarEnv;
+use ast_grep_core::verif_hooks::match_tree::{match_children_end, match_children_env};
+use std::borrow::Cow;
 use ast_grep_core::meta_var::MetaVariable;
 use ast_grep_core::MatchStrictness;
 use mock_ts::{kind_is_named, ERROR_KIND, K_CALL, K_COMMENT, K_IDENT, K_NUMBER, K_PUNCT_A, K_PUNCT_B};
@@ -177,6 +180,14 @@ pub fn pattern_node(gv: &[G], goals: &[Leaf; KMAX], root_kind: u16) -> PatternNo
   pattern_node_w(gv, goals, root_kind, 1)
 }
 
+/// just the pattern's children (for the `match_children_*` hooks)
+pub fn goal_list(gv: &[G], goals: &[Leaf; KMAX], w: usize) -> Vec<PatternNode> {
+  match pattern_node_w(gv, goals, K_CALL, w) {
+    PatternNode::Internal { children, .. } => children,
+    _ => unreachable!(),
+  }
+}
+
 /// like `pattern_node`, terminals' text is the leaf byte repeated `w` times
 pub fn pattern_node_w(gv: &[G], goals: &[Leaf; KMAX], root_kind: u16, w: usize) -> PatternNode {
   let mut children = Vec::with_capacity(gv.len());
@@ -341,48 +352,50 @@ mod proofs {
     (goals, cands, s)
   }
 
-  /// the length clause (`ComputeEnd` instantiation, `Pattern::get_match_len`): whatever
-  /// node it is asked about, a reported prefix length never exceeds the node and ends at
-  /// the end of a child (children are 2 bytes wide here, so: even and <= 2k).
-  /// NB `get_match_len` is *not* a soundness oracle for matches: its aggregator does not
-  /// check `$A`'s named-only restriction (it is only consulted for nodes that matched).
+  /// the length clause (`ComputeEnd` instantiation of the alignment, reached by
+  /// `Pattern::get_match_len`): a reported end offset never exceeds the node and is the
+  /// end of a child (children are 2 bytes wide here, so: even and <= 2k).
+  /// NB this aggregator is *not* a soundness oracle for matches: it does not check `$A`'s
+  /// named-only restriction (it is only consulted for nodes that matched).
   fn len_bound(gv: &[G], k: usize) {
     let (goals, cands, s) = setup(gv, k);
-    let mut pat = make_pattern(pattern_node_w(gv, &goals, K_CALL, 2), s);
+    let gl = goal_list(gv, &goals, 2);
     let mut src = [b' '; 2 * KMAX];
     let d = flat_tree_w(&cands, k, K_CALL, &mut src, 2);
     let g = mk_grep(as_str(&src, 2 * k), d);
-    let got = pat.get_match_len(g.root());
+    let got = match_children_end(&gl, &g.root(), &strictness_of(s));
     if k == gv.len() {
       kani::cover!(got == Some(2 * k));
       kani::cover!(matches!(got, Some(l) if l < 2 * k));
     }
-    if let Some(len) = got {
-      assert!(len <= 2 * k && len % 2 == 0, "match length exceeds the node or splits a child");
+    if let Some(end) = got {
+      assert!(end <= 2 * k && end % 2 == 0, "match length exceeds the node or splits a child");
     }
-    let _ = &mut pat;
-    std::mem::forget(pat);
+    std::mem::forget(gl);
     std::mem::forget(g);
   }
 
-  /// soundness through the real `Cow<MetaVarEnv>` instantiation (`Pattern::match_node`)
+  /// soundness of the sibling alignment with the real `Cow<MetaVarEnv>` aggregator
+  /// (`match_nodes_impl_recursive` driven through hook H2, i.e. what `Pattern::match_node`
+  /// runs for an `Internal` pattern node once the root kinds agree)
   fn sound_env(gv: &[G], k: usize) {
     let (goals, cands, s) = setup(gv, k);
-    let pat = make_pattern(pattern_node(gv, &goals, K_CALL), s);
+    let gl = goal_list(gv, &goals, 1);
     let mut src = [b' '; KMAX];
     let d = flat_tree(&cands, k, K_CALL, &mut src);
     let g = mk_grep(as_str(&src, k), d);
-    let got = pat.match_node(g.root());
+    let mut env = Cow::Owned(MetaVarEnv::new());
+    let got = match_children_env(&gl, &g.root(), &mut env, &strictness_of(s));
     let want = legal(gv, &goals, gv.len(), &cands, k, s);
     if k == gv.len() {
-      kani::cover!(got.is_some());
-      kani::cover!(got.is_none() && want);
+      kani::cover!(got);
+      kani::cover!(!got && want);
     }
-    if got.is_some() {
+    if got {
       assert!(want, "reported match has no legal alignment");
     }
-    std::mem::forget(got);
-    std::mem::forget(pat);
+    std::mem::forget(env);
+    std::mem::forget(gl);
     std::mem::forget(g);
   }
 
@@ -391,7 +404,7 @@ mod proofs {
   macro_rules! align_harness {
     ($name:ident, $f:ident, [$($g:expr),*], $k:expr) => {
       #[kani::proof]
-      #[kani::unwind(10)]
+      #[kani::unwind(8)]
       fn $name() {
         $f(&[$($g),*], $k);
       }
